@@ -53,7 +53,7 @@ MgrPost ==
 
 \* the DeployManager action an observed event must be
 SpecStep ==
-  CASE ev.e = "pub_manifest" -> PubManifest /\ ev.m = NStim("m") + 1
+  CASE ev.e = "pub_manifest" -> PubManifestC(ev.m)
     [] ev.e = "pub_closed"   -> PubClosed
     [] ev.e = "req_shutdown" -> ReqShutdown
     [] ev.e = "hn_resolve"   -> HnResolve(ev.r)
